@@ -55,6 +55,10 @@ func init() {
 			return genC04Waiters(r)
 		}
 
+		if run%8 == 5 {
+			return genC04LateReaders(r)
+		}
+
 		sc := genFOBase(r, foShape{minClients: 1, maxClients: 5, maxKeys: 3, maxOps: 4, sleeps: true, skipRead: true, faults: true, callerTricks: true})
 		sc.FO.Followup = true
 
@@ -124,6 +128,55 @@ func genC04Waiters(r *rand.Rand) *Scenario {
 	// schedules with a few change points do that far more often than uniform random choice
 	if chance(r, 0.7) {
 		sc.Sched = SchedSpec{Kind: "pct", Seed: r.Uint64(), Depth: 2 + r.IntN(3), Horizon: 40 + r.IntN(80)}
+	}
+
+	return sc
+}
+
+// genC04LateReaders: a long update of a stale but servable value (longer than UpdateTTL, so the temporary re-store
+// expires again while the update is still running) and other Gets of the key that arrive within a few scheduling
+// steps of the moment the update finishes: around the owner's final store and the release of the key lock, where a
+// reader is a waiter one step earlier and an ordinary cache hit one step later.
+func genC04LateReaders(r *rand.Rand) *Scenario {
+	sc := genFOBase(r, foShape{minClients: 2, maxClients: 4, maxKeys: 1, maxOps: 1})
+	fo := sc.FO
+	fo.Faults = FOFaults{}
+	fo.Cfg.SyncUpdate = chance(r, 0.3)
+	fo.Cfg.SyncRead = chance(r, 0.5)
+	fo.Cfg.MaxStalenessNs = 0
+	fo.Cfg.UpdateTTLNs = pick(r, ms, sec)
+	fo.Cfg.FailedUpdateTTLNs = pick(r, int64(0), -1)
+	fo.BackendTTLNs = 3600 * sec
+	fo.BackendJitter = -1
+	fo.Followup = true
+
+	for i := range fo.Init {
+		fo.Init[i] = FOInit{Key: i, State: "stale", AgeNs: sec, FailAgeNs: -1}
+	}
+
+	build := pick(r, 2*sec, 7*sec)
+
+	for c := range fo.Clients {
+		op := FOOp{Kind: "get", Key: 0}
+
+		if c == 0 {
+			op.BuildSleepNs = build
+			op.BuildFail = chance(r, 0.2)
+			fo.Clients[c] = []FOOp{op}
+
+			continue
+		}
+
+		op.BuildFail = chance(r, 0.3)
+		// the builder's sleep starts a few dozen steps after the run does: arrive around its end
+		fo.Clients[c] = []FOOp{{Kind: "sleep", SleepNs: build + int64(r.IntN(120)-40)*sc.TickNs}, op}
+	}
+
+	sc.NoFastPath = true
+	sc.Sched = genSched(r, 160)
+
+	if chance(r, 0.5) {
+		sc.Sched = SchedSpec{Kind: "pct", Seed: r.Uint64(), Depth: 2 + r.IntN(3), Horizon: 60 + r.IntN(100)}
 	}
 
 	return sc
@@ -476,7 +529,22 @@ func (r *foRun) oracleC04() {
 				}
 			}
 
-			out.violate("C04.R7", fmt.Sprintf("completed-build-rolled-back by=%s read=%s syncRead=%v", by, read, r.sc.Cfg.SyncRead),
+			// ... and by the role of the Get that made the store: one that went on to build or was turned away by a
+			// cached failure owned the key lock; one that returned a value without any build of its own did not.
+			role := "unknown"
+
+			for _, o := range r.ops {
+				if o.task == rb.task && o.key == k && o.inv < rb.seq && (!o.done || o.ret > rb.seq) {
+					switch {
+					case len(o.builds) > 0 || (o.done && o.err != nil):
+						role = "owner"
+					case o.done:
+						role = "non-owner"
+					}
+				}
+			}
+
+			out.violate("C04.R7", fmt.Sprintf("completed-build-rolled-back by=%s read=%s get=%s syncRead=%v", by, read, role, r.sc.Cfg.SyncRead),
 				"key %q: %v (build finished at seq %d) was stored at seq %d, afterwards, at seq %d, %v (origin seq %d: an older build, or the value cached before any build) was stored over it by task %s; everything has finished and a later Get observes %v, not the result of the last completed build",
 				k, n.val, origin[n.val], n.seq, rb.seq, rb.val, origin[rb.val], rb.task, l.val)
 		}
